@@ -138,6 +138,7 @@ class Impl(object):
         self.folder = None
         self.dflt = None
         self.rules = None
+        self.saved = None
 
     # -- lifecycle
     def close(self):
@@ -249,6 +250,12 @@ class Impl(object):
             return render_report(t.index_batch_crawl(data))
         if op == "?":
             return self._query(w[1:])
+        if op == "cut":
+            return self._cut(int(w[1]), int(w[2]))
+        if op == "uncut":
+            return self._uncut()
+        if op == "loglen":
+            return "ok %d" % len(FULL_LOG)
         if op == "hash":
             tb, lb = self.images()
             return "#T %d %d #L %d %d" % (fnv(tb), len(tb) // 128, fnv(lb), len(lb) // 16)
@@ -256,6 +263,67 @@ class Impl(object):
             tb, lb = self.images()
             return "T=%s L=%s" % (hx(tb), hx(lb))
         return "bad-op"
+
+    # -- C18: rebuild both files from a prefix of the real write log and reopen them with the real code
+    def cut_files(self, k, j):
+        tb, lb = bytearray(), bytearray()
+        def put(kind, off, data, nbytes=None):
+            buf = tb if kind in (0, 1) else lb
+            if nbytes is not None:
+                data = data[:nbytes]
+            if kind in (1, 3):
+                buf.extend(data)
+            else:
+                if off > len(buf):
+                    buf.extend(b"\0" * (off - len(buf)))
+                buf[off:off + len(data)] = data
+        for kind, off, data in FULL_LOG[:k]:
+            put(kind, off, data)
+        if j and k < len(FULL_LOG):
+            kind, off, data = FULL_LOG[k]
+            buf = tb if kind in (0, 1) else lb
+            if kind in (1, 3) or off >= len(buf):          # only an append can be torn
+                put(kind, off, data, j)
+        return bytes(tb), bytes(lb)
+
+    def _cut(self, k, j):
+        assert self.backend == "file" and getattr(self, "saved", None) is None
+        tb, lb = self.cut_files(k, j)
+        folder = tempfile.mkdtemp(dir=self.scratch)
+        with open(os.path.join(folder, "lru_trie.dat"), "wb") as f:
+            f.write(tb)
+        with open(os.path.join(folder, "link_store.dat"), "wb") as f:
+            f.write(lb)
+        rules = {a: rx.pattern for a, rx in self.t.webentity_creation_rules.items()}
+        dflt = self.t.default_webentity_creation_rule.pattern
+        saved_log = list(FULL_LOG)
+        try:
+            t2 = Traph(folder=folder, default_webentity_creation_rule=dflt, webentity_creation_rules=rules)
+        except TraphException:
+            FULL_LOG[:] = saved_log
+            shutil.rmtree(folder, ignore_errors=True)
+            return "err traph"
+        except Exception:
+            FULL_LOG[:] = saved_log
+            shutil.rmtree(folder, ignore_errors=True)
+            raise
+        self.saved = (self.t, self.folder, saved_log)
+        self.t, self.folder = t2, folder
+        del WRITE_LOG[:]        # header writes of the reopening belong to the harness action, not to the history
+        return "ok"
+
+    def _uncut(self):
+        if getattr(self, "saved", None) is None:
+            return "ok"
+        try:
+            self.t.close()
+        except Exception:
+            pass
+        shutil.rmtree(self.folder, ignore_errors=True)
+        self.t, self.folder, saved_log = self.saved
+        FULL_LOG[:] = saved_log
+        self.saved = None
+        return "ok"
 
     def _query(self, w):
         t = self.t
